@@ -1044,15 +1044,7 @@ package engine
 //@       name == atomEmptyBlock || name == atomEmptyList ||
 //@       (cls(spec) == 2 && defIn(vm, name, 1)) || (cls(spec) == 1 && defIn(vm, name, 2)))
 
-//@ func (*ListIterator).Next
-//@   trusted
-//@   modifies *i
-//@ func (*ListIterator).Current
-//@   trusted
-//@   modifies nothing
-//@ func (*ListIterator).Err
-//@   trusted
-//@   modifies nothing
+//@ -- (*ListIterator).Next/Current/Err/Suffix: verified step contracts in verif_contracts_iter.go
 //@ func appendUniqNewAtom
 //@   trusted
 //@   modifies elems(slice)
